@@ -757,7 +757,9 @@ static void DecodeLDQ(Word Index) {
     if (ChkArgCnt(1, 2) && ChkMinCPU(CPU6309)) {
         OpSize = eSymbolSize32Bit;
         DecodeAdr(1, ArgCnt, 2);
-        if (AdrMode == ModImm) {
+        if (AdrMode == ModNone)
+            ;
+        else if (AdrMode == ModImm) {
             BAsmCode[0] = 0xcd;
             memcpy(BAsmCode + 1, AdrVals, AdrCnt);
             CodeLen = 1 + AdrCnt;
